@@ -7,7 +7,7 @@ from __future__ import annotations
 import ast
 import re
 
-from ..astutil import dispatch_tables, call_attr, calls_in, unparse, walk_local
+from ..astutil import canon_cmp, dispatch_tables, call_attr, calls_in, unparse, walk_local
 from ..cfg import CFG
 from ..dataflow import resolved_text
 from ..report import Finding, Report
@@ -305,6 +305,10 @@ def check(idx: Index, rep: Report, tier: str) -> str:
         op = {ast.Eq: "==", ast.NotEq: "!=", ast.Lt: "<", ast.LtE: "<=", ast.Gt: ">", ast.GtE: ">="}[type(e.ops[0])]
         want = CMP_OP[mn[-2:]]
         l, rr = resolved_text(cfg, e.left, cfg.node_of(e)), resolved_text(cfg, e.comparators[0], cfg.node_of(e))
+        if "args[1]" in l and "args[0]" in rr and "args[0]" not in l and "args[1]" not in rr:
+            # written the other way round (`rhs > lhs` for `lhs < rhs`): same relation with the operands swapped
+            l, rr = rr, l
+            op = {"<": ">", "<=": ">=", ">": "<", ">=": "<=", "==": "==", "!=": "!="}[op]
         if op != want:
             r3.fail(inst, Finding("C15.R3", f.fq, f"cmpi-operator:{mn}", f"case {k} ({mn}) compares with `{op}`; the mnemonic means `{want}`", f.loc))
             continue
@@ -324,7 +328,7 @@ def check(idx: Index, rep: Report, tier: str) -> str:
     argsn = g.node.args.args[-1].arg
     A, B = f"{argsn}[0]", f"{argsn}[1]"
     O, U = f"not isnan({A}) and (not isnan({B}))", f"isnan({A}) or isnan({B})"
-    canon_ = lambda t_: unparse(ast.parse(t_, mode="eval").body)
+    canon_ = lambda t_: canon_cmp(ast.parse(t_, mode="eval").body)  # comparisons oriented with < / <= on both sides
     fcases = {}
     for _s, tbl_, _d, _n in dispatch_tables(g.node):
         for key_, body_ in tbl_.items():
